@@ -16,6 +16,7 @@ import (
 	"strings"
 	"sync"
 	"time"
+	"unicode/utf8"
 
 	"verif/lib"
 )
@@ -275,10 +276,68 @@ func longHistory(r *rand.Rand, n int) sequence {
 		default:
 			v = int8(r.Intn(nValsAll))
 		}
+		if _, via := c.member(m); via == "param" && v == vNull {
+			// every typed parameter of the interpreter accepts null, generic or not: outside the compared domain
+			v = t.args[p]
+		}
 		q = append(q, step{Op: 'W', Inst: int8(t.idx), Member: int8(m), Val: v})
 	}
 	return q
 }
+
+// calibrate asks the interpreter, on a plain class, whether method parameter types are
+// enforced at all and how such a rejection is worded (common prefix of two rejections
+// that differ in declared type and value; used by the concurrent probes only).
+func (d *driver) calibrate() {
+	src := `<?php
+class Mono { public function ti(int $x) { return 1; } public function ta(array $x) { return 1; } }
+$m = new Mono();
+try { $m->ti("s"); echo "P1 accepted\n"; } catch (\Throwable $e) { echo "P1 rejected ", $e->getMessage(), "\n"; }
+try { $m->ta(7); echo "P2 accepted\n"; } catch (\Throwable $e) { echo "P2 rejected ", $e->getMessage(), "\n"; }
+try { $m->ti(5); echo "P3 accepted\n"; } catch (\Throwable $e) { echo "P3 rejected ", $e->getMessage(), "\n"; }
+`
+	r := d.e.RunScript(src, procTimeout)
+	var m1, m2 string
+	ok3 := false
+	got := 0
+	for _, line := range strings.Split(r.Stdout, "\n") {
+		switch {
+		case strings.HasPrefix(line, "P1 rejected "):
+			m1 = strings.TrimPrefix(line, "P1 rejected ")
+			got++
+		case strings.HasPrefix(line, "P2 rejected "):
+			m2 = strings.TrimPrefix(line, "P2 rejected ")
+			got++
+		case line == "P1 accepted", line == "P2 accepted":
+			got++
+		case line == "P3 accepted":
+			ok3 = true
+			got++
+		case strings.HasPrefix(line, "P3 rejected"):
+			got++
+		}
+	}
+	if got != 3 {
+		d.e.Inconclusive(fmt.Sprintf("calibration script did not complete (exit %d): %.200s %.200s; parameter-only methods are not compared", r.Exit, r.Stdout, r.Stderr))
+		return
+	}
+	paramsEnforced = m1 != "" && m2 != "" && ok3
+	if paramsEnforced {
+		n := 0
+		for n < len(m1) && n < len(m2) && m1[n] == m2[n] {
+			n++
+		}
+		for n > 0 && !utf8.ValidString(m1[:n]) {
+			n--
+		}
+		if n >= 6 {
+			paramRejectPrefix = m1[:n]
+		}
+	}
+}
+
+// paramRejectPrefix is the calibrated common prefix of parameter-type rejections ("" = unknown).
+var paramRejectPrefix string
 
 // ---------------------------------------------------------------------------------
 
@@ -287,13 +346,15 @@ func main() {
 	e.RunScriptWitnesses()
 	d := &driver{e: e, best: map[string]found{}, byPhase: map[string]int{}, sampled: map[string]int{}, raceAttr: map[string]int{}, raceOther: map[string]int{}}
 
+	d.calibrate()
 	core := alphabet{classes: []int{cBox, cPair}, nVals: nValsCore}
+	coreAll := alphabet{classes: []int{cBox, cPair}, nVals: nValsCore, withChecks: true}
 	boxOnly := alphabet{classes: []int{cBox}, nVals: nValsCore}
 
 	// (1) every history of up to 2 steps, each alone in a fresh process
 	var small []sequence
-	small = append(small, core.exactly(1)...)
-	small = append(small, core.exactly(2)...)
+	small = append(small, coreAll.exactly(1)...)
+	small = append(small, coreAll.exactly(2)...)
 	lib.ParallelMap(len(small), 0, func(i int) { d.runSingle("single<=2", small[i]) })
 
 	// (2) complete enumeration, batched (every history owns its class declarations)
@@ -321,7 +382,7 @@ func main() {
 		n := e.Pick(600, 6000)
 		qs := make([]sequence, n)
 		for i := range qs {
-			qs[i] = randomWalk(r, core, 3+r.Intn(2))
+			qs[i] = randomWalk(r, coreAll, 3+r.Intn(2))
 		}
 		lib.ParallelMap(n, 0, func(i int) { d.runSingle("single3-4", qs[i]) })
 	}
@@ -377,6 +438,7 @@ func main() {
 		e.Violation(k, f.what, "php", []byte(f.script))
 	}
 
+	e.Extra("method_parameter_types_enforced", paramsEnforced)
 	e.Extra("by_phase", d.byPhase)
 	e.Extra("member_writes_compared", d.writes)
 	e.Extra("enumerated_histories", enumerated)
@@ -390,7 +452,7 @@ func main() {
 	e.Extra("unattributed_races", topN(d.raceOther, 12))
 	e.Assume(
 		"acceptance is observed as 'the store did not throw and the property then holds the written value'; any Throwable counts as a rejection",
-		"method parameters declared with a type parameter are observed only through the store they perform: origami enforces no parameter types at call time for any class, generic or not",
+		"methods whose parameter is declared with a type parameter and that store nothing are compared only when the interpreter rejects a string for `int $x` of a plain class's method (calibrated at start, see method_parameter_types_enforced); null arguments to them are not compared because every typed parameter accepts null",
 		"race reports are attributed to the property only when one of the two accesses is made by a function of node/class_generic.go or by (*NewClassGenerated).resolveClass (first interpreter frame below Go runtime frames and the property-type accessors); all other reports are listed as unattributed",
 		"a Go-level crash of a concurrent run is attributed only when its site is in node/class_generic.go, node/new.go or data/type_generic.go",
 	)
